@@ -189,3 +189,17 @@ CASES += [
         (_RT1, "                self._data[nn,nn,nn,nn] = -(numpy.trace(self._data[:,:,nn,nn])\n                                            - self._data[nn,nn,nn,nn])\n",
                "                self._data[nn,nn,nn,nn] = 0.0\n                self._data[nn,nn,nn,nn] -= 2.0*numpy.trace(self._data[:,:,nn,nn])\n", 1)]},
 ]
+
+_TDRF9 = "quantarhei/qm/liouvillespace/tdredfieldfoerster.py"
+_TDRF9_OLD = ("            for b in range(Na):\n                gg = 0.0\n                for a in range(Na):\n"
+              "                    self.data[:,a,a,b,b] += KF[:Ntc,a,b]\n                    gg += KF[:Ntc,a,b]\n"
+              "                self.data[:,b,b,b,b] += -gg\n")
+_TDRF9_NEW = ("            KF = KF[:Ntc,:,:]\n            gg = numpy.sum(KF, axis=%d)\n            for b in range(Na):\n"
+              "                for a in range(Na):\n                    self.data[:,a,a,b,b] += KF[:,a,b]\n"
+              "                self.data[:,b,b,b,b] += -gg[:,b]\n")
+CASES += [
+    {"name": "TD combined tensor: depopulation rates summed at once over the wrong state axis (seeded change of round 9)",
+     "kind": "mutant", "rule": "C01-A", "edits": [(_TDRF9, _TDRF9_OLD, _TDRF9_NEW % 2, 1)]},
+    {"name": "TD combined tensor: depopulation rates summed at once over the donor's column", "kind": "twin",
+     "edits": [(_TDRF9, _TDRF9_OLD, _TDRF9_NEW % 1, 1)]},
+]
